@@ -46,6 +46,7 @@ ASSUMPTIONS = [
     "complex literals ('°') are outside the property and not generated",
 ]
 MIN_COUNTERS = {
+    "literals_in_context": {"quick": 1500, "thorough": 6000},
     "literal_runs": {"quick": 7000, "thorough": 200000},
     "ints_exhaustive": {"quick": 4000, "thorough": 200000},
     "decimal_literals": {"quick": 1200, "thorough": 12000},
@@ -336,6 +337,10 @@ def units(tier, seed):
     for k in range(0, len(hostile), 150):
         part = hostile[k:k + 150]
         u.append({"kind": "hostile", "texts": [t for _, t in part], "labels": [l for l, _ in part]})
+    # the same literals written inside structures (a literal denotes its value wherever it stands)
+    ctx_lits = [t for _, t in hostile if "." in t][:: 3 if quick else 1]
+    for k in range(0, len(ctx_lits), 60):
+        u.append({"kind": "contexts", "texts": ctx_lits[k:k + 60]})
     # longest units first would starve nothing here; interleave kinds so that a
     # partial run still saw every workload
     r = random.Random(f"C05-order-{seed}")
@@ -501,6 +506,69 @@ def _new_result():
             "counters": {}, "samples": []}
 
 
+CONTEXTS = [
+    ("list-item", "⟨{L}|2⟩", lambda st: st[-1][0]),
+    ("list-item-last", "⟨1|{L}⟩", lambda st: st[-1][1]),
+    ("nested-list", "⟨⟨{L}⟩|3⟩", lambda st: st[-1][0][0]),
+    ("if-branch", "1[{L}|7]", lambda st: st[-1]),
+    ("else-branch", "0[7|{L}]", lambda st: st[-1]),
+    ("for-body", "2({L})", lambda st: st[-1]),
+    ("lambda-body", "λ{L};†", lambda st: st[-1]),
+    ("map-body", "2ƛ{L};", lambda st: list(st[-1])[1]),
+    ("function-body", "@f|{L};@f;", lambda st: st[-1]),
+    ("modifier-operand", "1 ₌{L}d", lambda st: st[-2]),
+    ("after-literal", "5 {L}", lambda st: st[-1]),
+    ("while-condition", "{{{L}|X}}{L}", lambda st: st[-1]),
+]
+
+
+def check_in_contexts(text, res):
+    """The literal `text` written inside every structure kind must denote the same exact rational."""
+    from lib import env
+    from lib.harness import short_hash
+    from lib.values import is_exact_number, to_fraction
+    from lib.worker import watchdog, Watchdog
+
+    c = res["counters"]
+    toks = ref_split(text)
+    if len(toks) != 1:
+        return
+    want = ref_value(toks[0])
+    for name, tmpl, pick in CONTEXTS:
+        prog = tmpl.replace("{L}", text).replace("{{", "{").replace("}}", "}")
+        try:
+            with watchdog(30):
+                r = env.run_text(prog)
+                got = None if r.error else pick(r.stack)
+        except Watchdog:
+            res["inconclusive"].append({"why": "watchdog", "text": prog})
+            continue
+        except Exception as e:  # noqa  (picker failed: shape of the result is not what the context promises)
+            r = None
+            got = e
+        res["evals"] += 1
+        c["literals_in_context"] = c.get("literals_in_context", 0) + 1
+        res["keys"].append(short_hash([name, text]))
+        bad = None
+        if r is not None and r.error:
+            bad = f"raised {type(r.error[1]).__name__}: {r.error[1]}"
+        elif isinstance(got, Exception):
+            bad = f"result has an unexpected shape ({type(got).__name__})"
+        elif not is_exact_number(got):
+            bad = f"pushed {_describe(got)}, not an exact rational"
+        elif to_fraction(got) != want:
+            bad = f"pushed {got} instead of {want}"
+        if bad:
+            c["violations_literal-in-context"] = c.get("violations_literal-in-context", 0) + 1
+            if len(res["violations"]) < MAX_WITNESSES_PER_UNIT:
+                res["violations"].append({
+                    "mechanism": "literal-in-context:" + name,
+                    "what": f"literal {text!r} written as {prog!r} ({name}): {bad}",
+                    "text": text, "program": prog,
+                    "unit": {"kind": "contexts", "texts": [text]},
+                })
+
+
 def run_unit(unit):
     from lib.harness import short_hash
 
@@ -515,6 +583,10 @@ def run_unit(unit):
                 c["ints_exhaustive"] = c.get("ints_exhaustive", 0) + 1
                 if n > 1:
                     res["distinct"] += 1
+        return res
+    if k == "contexts":
+        for text in unit["texts"]:
+            check_in_contexts(text, res)
         return res
     labels = None
     if k == "texts":
